@@ -9,6 +9,7 @@
 import YashModel.Common.Proto
 import YashModel.Pipe.Model
 import YashModel.Pipe.Spec
+import YashModel.Pipe.Flow
 import YashModel.Pipe.Fds
 import YashModel.Pipe.File
 open YashModel YashModel.Pipe YashModel.Proto
@@ -220,48 +221,10 @@ def runOps (line : String) : String :=
 
 /-! ### transfers under a seeded scheduler -/
 
-def lcg (x : Nat) : Nat := (x * 1103515245 + 12345) % 2147483648
-
-/-- request size of the writer: the rest of the current piece (`wk = 0`: the whole rest) -/
-def wReq (total wk : Nat) (s : Sys Byte) : Nat :=
-  if wk = 0 then s.unsent.length + 1 else wk - ((total - s.unsent.length) % wk)
-
-/-- Runs writer ∥ reader: at every step the seeded generator names a process; if that process
-    cannot step the other one is tried; stops when neither can (final state, or deadlock). -/
-def runSchedStop (total wk rk : Nat) (stop : Option Nat) : Nat → Nat → Sys Byte → Sys Byte
-  | 0, _, s => s
-  | fuel + 1, x, s =>
-    let x' := lcg x
-    let aw := Act.w (wReq total wk s)
-    let buf := if rk = 0 then 1024 else rk
-    -- a reader with `stop = some K` asks for at most what is missing to K and closes at K
-    let stepReader (s : Sys Byte) : Option (Sys Byte) :=
-      match stop with
-      | none => s.step cfg (Act.r buf)
-      | some k =>
-        if s.rpc == .run && k ≤ s.received.length then s.stepRClose
-        else s.step cfg (Act.r (min buf (k - s.received.length)))
-    let stepWriter (s : Sys Byte) : Option (Sys Byte) := s.step cfg aw
-    let (f1, f2) := if (x' / 65536) % 2 = 0 then (stepWriter, stepReader) else (stepReader, stepWriter)
-    match f1 s with
-    | some s' => runSchedStop total wk rk stop fuel x' s'
-    | none =>
-      match f2 s with
-      | some s' => runSchedStop total wk rk stop fuel x' s'
-      | none => s
-
-def runSched (total wk rk : Nat) (fuel x : Nat) (s : Sys Byte) : Sys Byte :=
-  runSchedStop total wk rk none fuel x s
-
 def showW : WPc → String
   | .run => "run" | .wait => "wait" | .closed => "closed" | .failed => "failed"
 def showR : RPc → String
   | .run => "run" | .wait => "wait" | .done => "done"
-
-/-- one pipe transfer; `none` if the run did not reach the final state -/
-def transfer (seed wk rk : Nat) (x : List Byte) : Option (List Byte) :=
-  let s := runSched x.length wk rk (12 * x.length + 200) seed (Sys.init x)
-  if s.final then some s.received else none
 
 def runXfer (ws : List String) : String :=
   if kv ws "mode" == some "rderr" then
@@ -278,7 +241,7 @@ def runXfer (ws : List String) : String :=
   let wk := kvNat ws "wk"
   let rk := kvNat ws "rk"
   let stop := (kv ws "stop").bind (·.toNat?)
-  let s := runSchedStop n wk rk stop (12 * n + 200) (kvNat ws "seed") (Sys.init p)
+  let s := runSchedStop cfg n wk rk stop (12 * n + 200) (kvNat ws "seed") (Sys.init p)
   -- the reader stopped early iff it closed before end of file
   let early := match stop with
     | some k => decide (k < n)
@@ -304,31 +267,6 @@ def showFlow (x : List Byte) : String :=
 
 def emitsNewline (src : String) : Bool := src == "var" || src == "dbl" || src == "here"
 
-/-- `String::from_utf8(result).unwrap_or_else(|e| String::from_utf8_lossy(..))` of `expand_common`, for
-    byte strings whose only bytes outside UTF-8 are 0xFF (each becomes U+FFFD = EF BF BD; all other
-    bytes, NUL included, are kept) — the only kind of invalid output the generator produces -/
-def lossyFF (bs : List Byte) : List Byte := bs.flatMap fun b => if b = 255 then [239, 191, 189] else [b]
-
-/-- command substitution on the bytes the child wrote: lossy decoding, then the trailing newlines go -/
-def substValue (bs : List Byte) : List Byte := trimEnd 10 (lossyFF bs)
-
-/-- the Impl model of the flow: every pipe is a run of the writer ∥ reader system -/
-def flowModel (seed : Nat) : List Char → List Byte → Option (List Byte)
-  | [], x => some x
-  | 'c' :: rest, x => do flowModel (lcg seed) rest (← transfer seed 0 0 x)
-  | 'y' :: rest, x => do flowModel (lcg seed) rest (← transfer seed 0 (1 + seed % 700) x)
-  | 'g' :: rest, x => flowModel seed rest x
-  | 's' :: rest, x => do flowModel (lcg seed) rest (substValue (← transfer seed 0 0 x) ++ [10])
-  | 'h' :: rest, x => do flowModel (lcg seed) rest (substValue (← transfer seed 0 0 x) ++ [10])
-  | _ :: _, _ => none
-
-/-- the Spec of the flow: pipes are the identity, `$( )` removes the trailing newlines -/
-def flowSpec : List Char → List Byte → List Byte
-  | [], x => x
-  | 's' :: rest, x => flowSpec rest (specSubst 10 (lossyFF (specTransfer x)) ++ [10])
-  | 'h' :: rest, x => flowSpec rest (specSubst 10 (lossyFF (specTransfer x)) ++ [10])
-  | _ :: rest, x => flowSpec rest (specTransfer x)
-
 def runSh (ws : List String) : String :=
   let n := kvNat ws "n"
   let p := payload n (kvNat ws "pat") (kvNat ws "per") (kvNat ws "nl")
@@ -343,8 +281,8 @@ def runSh (ws : List String) : String :=
   let seed := kvNat ws "seed"
   let emitted := if emitsNewline src then p ++ [10] else p
   let model := do
-    let x ← flowModel seed shape emitted
-    if isVar then pure (substValue (← transfer (lcg (seed + 1)) 0 0 x)) else pure x
+    let x ← flowModel cfg seed shape emitted
+    if isVar then pure (substValue (← transfer cfg (lcg (seed + 1)) 0 0 x)) else pure x
   let spec :=
     let x := flowSpec shape emitted
     if isVar then specSubst 10 (lossyFF (specTransfer x)) else x
@@ -360,11 +298,6 @@ def initTable (pro : Nat) : Table := fun fd =>
   let closed : List Nat := match pro with
     | 1 => [0] | 2 => [1] | 3 => [0, 1] | 4 => [2] | _ => []
   if fd < 3 && !closed.contains fd then some .file else none
-
-/-- `pipe()`: the two lowest unused descriptors -/
-def alloc2 (t : Table) : Fd × Fd :=
-  let r := t.minUnused 64 0
-  (r, (t.set r (some .file)).minUnused 64 0)
 
 /-- `fdsnap`: open descriptors 0..39, pipes numbered in order of first appearance -/
 def snapshot (t : Table) : String :=
@@ -383,19 +316,6 @@ def snapshot (t : Table) : String :=
         go rest seen' (s!"{fd}:w{(seen'.idxOf p) + 1}" :: acc)
   let l := go (List.range 40) [] []
   if l.isEmpty then "-" else ",".intercalate l
-
-/-- no descriptor other than the expected ones refers to pipe `p` -/
-def noStray (t : Table) (p : Nat) (rAt wAt : Option Nat) : Bool :=
-  (List.range 40).all fun fd =>
-    (t fd != some (.pr p) || rAt == some fd) && (t fd != some (.pw p) || wAt == some fd)
-
-/-- the child of a command substitution started from table `t` (pipe number `p`):
-    its table and whether it is connected as the property needs -/
-def substRun (t : Table) (p : Nat) : Table × Bool :=
-  let (r, w) := alloc2 t
-  match substChild (t.pipe p r w) r w with
-  | none => (t, false)
-  | some c => (c, c 1 == some (.pw p) && noStray c p none (some 1))
 
 /-- the members of a `k`-stage pipeline started from table `t` (pipes numbered from `p0`):
     each member's table and whether it is connected -/
@@ -427,7 +347,7 @@ def runFd (ws : List String) : String :=
   let p := payload n (kvNat ws "pat") 0 (kvNat ws "nl")
   let form := (kv ws "form").getD "subst"
   let t0 := initTable (kvNat ws "pro")
-  let tr (x : List Byte) : Option (List Byte) := transfer 17 0 0 x
+  let tr (x : List Byte) : Option (List Byte) := transfer cfg 17 0 0 x
   -- (snapshots by key, all children connected, value if connected)
   let (snaps, ok, value) : List (Nat × Table) × Bool × Option (List Byte) :=
     match form with
@@ -588,7 +508,7 @@ def runLim (ws : List String) : String :=
   let lim := kvNat ws "lim"
   -- descriptor 3 is the consumer's file (`exec 3>/out` before the prologue)
   let t0 : Table := (initTable (kvNat ws "pro")).set 3 (some .file)
-  let tr (x : List Byte) : List Byte := (transfer 23 0 0 x).getD []
+  let tr (x : List Byte) : List Byte := (transfer cfg 23 0 0 x).getD []
   let (st, value) : Nat × List Byte :=
     match form with
     | "subst" =>
@@ -637,7 +557,7 @@ def runRd (ws : List String) : String :=
   let p := rdPayload (kvNat ws "n") (kvNat ws "bad")
   let raw := kvNat ws "raw" != 0
   -- the bytes reach the built-in through a pipe (as `Nat` bytes in the transfer model)
-  let viaPipe := ((transfer 29 0 0 (p.map (·.toNat))).getD []).map UInt8.ofNat
+  let viaPipe := ((transfer cfg 29 0 0 (p.map (·.toNat))).getD []).map UInt8.ofNat
   let (st, v, _) := readBuiltin raw viaPipe
   let out := (toString st).toUTF8.toList ++ [58] ++ v ++ [10]
   let (st', v', _) := readBuiltin raw p
@@ -665,8 +585,8 @@ def runRp (ws : List String) : String :=
   -- the writer's pieces are write requests of the transfer model: first piece, then `piece` bytes each
   let first := kvNat ws "first"
   let piece := kvNat ws "piece"
-  let head := (transfer 31 0 0 ((data.take first).map (·.toNat))).getD []
-  let tailPart := (transfer 37 piece 1 ((data.drop first).map (·.toNat))).getD []
+  let head := (transfer cfg 31 0 0 ((data.take first).map (·.toNat))).getD []
+  let tailPart := (transfer cfg 37 piece 1 ((data.drop first).map (·.toNat))).getD []
   let stream := (head ++ tailPart).map UInt8.ofNat
   let render (input : List UInt8) : List UInt8 :=
     let (s1, a, r1) := readBuiltin raw input
